@@ -10,6 +10,7 @@ import (
 	"testing"
 	"time"
 
+	"github.com/libp2p/go-libp2p/core/crypto"
 	"google.golang.org/protobuf/proto"
 
 	"berty.tech/weshnet/v2/internal/zzverif/vrep"
@@ -30,6 +31,9 @@ type c09World struct {
 	side     []string
 	R        *party
 	anns     [][]byte
+	// first-use scenarios: what each thread's GetShareableChainKey returned, and the receiving member
+	firstAnns [][]byte
+	rMember   crypto.PubKey
 }
 
 type c09Scenario struct {
@@ -37,7 +41,7 @@ type c09Scenario struct {
 	Senders int
 	Msgs    int
 	Groups  int
-	Side    string // "", "announce", "open-own"
+	Side    string // "", "announce", "open-own", "first-use" (the chain key does not exist yet: every thread announces, then sends)
 }
 
 func (sc c09Scenario) name() string {
@@ -72,9 +76,15 @@ func c09Scen(seed int64, sc c09Scenario) vsync.Scenario {
 			w.S = newParty(seed, "A", "1", 2, 2, false)
 			w.gs = c09Groups(seed, sc, w.S)
 			w.R = newParty(seed, map[string]string{"account": "A"}[sc.Kind]+map[string]string{"contact": "B", "multimember": "B"}[sc.Kind], "r", 16, 2, false)
-			for _, g := range w.gs {
-				// creates the device's chain key; the receiver's announcement is taken before any send (counter 0)
-				w.anns = append(w.anns, w.S.announce(g, w.R.md(g).Member()))
+			if sc.Side != "first-use" {
+				for _, g := range w.gs {
+					// creates the device's chain key; the receiver's announcement is taken before any send (counter 0)
+					w.anns = append(w.anns, w.S.announce(g, w.R.md(g).Member()))
+				}
+			} else {
+				// derive the (lazily generated) member/device keys now, the chain key stays absent
+				w.S.md(w.gs[0])
+				w.rMember = w.R.md(w.gs[0]).Member()
 			}
 			var pre []byte
 			if sc.Side == "open-own" {
@@ -97,6 +107,14 @@ func c09Scen(seed int64, sc c09Scenario) vsync.Scenario {
 			for t := 0; t < sc.Senders; t++ {
 				t := t
 				vsync.GoNamed(fmt.Sprintf("T%d", t), func() {
+					if sc.Side == "first-use" {
+						b, err := w.S.st.GetShareableChainKey(context.Background(), w.gs[0], w.rMember)
+						if err != nil {
+							w.errs = append(w.errs, "announce: "+err.Error())
+						} else {
+							w.firstAnns = append(w.firstAnns, b)
+						}
+					}
 					for i := 0; i < sc.Msgs; i++ {
 						gi := 0
 						if sc.Groups == 2 {
@@ -172,6 +190,41 @@ func c09Scen(seed int64, sc c09Scenario) vsync.Scenario {
 					}
 				}
 			}
+			if sc.Side == "first-use" {
+				// every thread was handed the device's chain key: all of them must describe ONE chain (equal keys at
+				// equal counters), and the earliest one opens everything
+				type ann struct {
+					ck  *protocoltypes.DeviceChainKey
+					raw []byte
+				}
+				var as []ann
+				for _, b := range w.firstAnns {
+					ck, err := decryptDeviceChainKey(b, w.gs[0], w.R.md(w.gs[0]).member, w.S.md(w.gs[0]).Device())
+					if err != nil {
+						return o, &vsync.Verdict{Sig: "C09/announcement-unreadable", Desc: err.Error()}
+					}
+					as = append(as, ann{ck, b})
+				}
+				if len(as) == 0 {
+					return o, &vsync.Verdict{Sig: "HARNESS/c09-no-announcement", Desc: "no thread obtained the chain key"}
+				}
+				best := 0
+				for i, a := range as {
+					for _, b := range as[:i] {
+						if a.ck.Counter == b.ck.Counter && string(a.ck.ChainKey) != string(b.ck.ChainKey) {
+							return o, &vsync.Verdict{Sig: "C09/two-chain-keys-handed-out", Desc: fmt.Sprintf("two concurrent first uses of the group were handed different chain keys at counter %d: a member holding one of them cannot open what is sealed under the other", a.ck.Counter)}
+						}
+					}
+					if a.ck.Counter < as[best].ck.Counter {
+						best = i
+					}
+				}
+				w.anns = [][]byte{as[best].raw}
+				o += fmt.Sprintf(" | announced@%d", as[best].ck.Counter)
+				if as[best].ck.Counter != 0 {
+					return o, &vsync.Verdict{Sig: "C09/first-announcement-not-at-counter-0", Desc: fmt.Sprintf("no first user was handed the initial chain key (lowest counter %d)", as[best].ck.Counter)}
+				}
+			}
 			// every envelope opens at a receiver that registered the chain key before the first send
 			for gi, g := range w.gs {
 				if err := w.R.st.RegisterChainKey(context.Background(), g, w.S.md(g).Device(), w.anns[gi]); err != nil {
@@ -210,10 +263,13 @@ func TestVerifC09(t *testing.T) {
 	add(c09Scenario{Kind: "contact", Senders: 2, Msgs: 2, Groups: 2})
 	add(c09Scenario{Kind: "multimember", Senders: 2, Msgs: 1, Groups: 1, Side: "announce"})
 	add(c09Scenario{Kind: "multimember", Senders: 2, Msgs: 1, Groups: 1, Side: "open-own"})
+	add(c09Scenario{Kind: "multimember", Senders: 2, Msgs: 1, Groups: 1, Side: "first-use"})
+	add(c09Scenario{Kind: "contact", Senders: 2, Msgs: 1, Groups: 1, Side: "first-use"})
 	bound, budget := 2, 5*time.Minute
 	if vrep.Thorough() {
 		bound, budget = 3, 25*time.Minute
 		add(c09Scenario{Kind: "account", Senders: 3, Msgs: 2, Groups: 1})
+		add(c09Scenario{Kind: "account", Senders: 3, Msgs: 1, Groups: 1, Side: "first-use"})
 	}
 	vsync.ExploreScenarios(rep, "seal", scs, bound, 3000, budget)
 }
